@@ -1,4 +1,5 @@
 // q_c10.cc - reference model of recipient routing/rewriting (qmail-send(8), addresses(5)) and of the configuration in force
+#include <signal.h>
 #include "q.h"
 #include <algorithm>
 
@@ -50,6 +51,13 @@ std::string verp_sender(const std::string &sender, const std::string &recip) {
 void WorldQ::c10_on_send_event(const Event &e) {
   // which configuration did the daemon actually read last?
   std::string ctl = home + "/control/";
+  // qmail-send(8): "If qmail-send receives a HUP signal, it will reread locals and virtualdomains." A HUP whose handler has run
+  // obliges this process to begin a reread (the chdir to the home directory) - not before its next return from select, because the
+  // handler may have run after the main loop looked at its flag (same shape as the recorded ALRM finding), but before the one after.
+  if (e.pid != rc_hup_pid) { rc_hup_pid = e.pid; rc_hup_owed = false; rc_hup_selects = 0; }
+  if (e.call == C_SIGNAL && e.a == SIGHUP && e.b == 0) { rc_hup_owed = true; rc_hup_selects = 0; k->probe(rc_reading ? "hup_during_reread" : "hup_handled"); return; }
+  if (e.call == C_CHDIR && e.path == home) { rc_hup_owed = false; }
+  if (e.call == C_SELECT && rc_hup_owed && enabled("c10")) { if (++rc_hup_selects >= 2) { rc_hup_owed = false; violate("C10.hup-ignored", "qmail-send handled a HUP and has come back from select twice since without starting to reread its control files"); return; } }
   if (e.call == C_CHDIR && e.ret == 0) {
     if (e.path == home) { rc_reading = true; rc_failed = false; rc_cand = rc_force; rc_seen_locals = rc_seen_vdoms = false; }
     else if (e.path == home + "/queue" && rc_reading) {
